@@ -20,9 +20,12 @@ LEVEL_NOTE = ("Trusted: the oracle (80 lines; per-variable union over paths is e
 TECHNIQUE = "reference-model monitor: collecting semantics over paths vs real checker verdict and error family"
 RULE = ("functions over <=5 variables assigned int/float/bool/tuple literals and read under nested "
         "if/elif/else, while, for-range, break/continue/return (nesting <=4, <=16 statements), optional "
-        "nested function definitions reading outer variables, optional literal True/False conditions. "
+        "nested function definitions reading outer variables, optional literal True/False conditions; "
+        "every fourth case is a G-prog program (valid by construction, incl. dead code after jumps, "
+        "walrus, unpacking, nested functions) that must not be rejected for either reason. "
         "distinct = distinct IR shapes (statement kinds, variables, types); non-trivial = has a join")
-FLOORS = {"expect_accept": 20, "expect_undefined": 20, "expect_type_conflict": 10}
+FLOORS = {"expect_accept": 20, "expect_undefined": 20, "expect_type_conflict": 10,
+          "valid_by_construction_functions": 100}
 TYPES = {"int": "1", "float": "1.5", "bool": "True", "tuple": "(1, 2)"}
 VARS = ["x", "y", "z", "u", "v"]
 
@@ -296,7 +299,46 @@ def judge(ctx, body, text):
     return rec
 
 
+def run_gprog_case(ctx, rng, idx):
+    """Programs of the typed generator G-prog are definedness- and type-stable by construction
+    (every variable is assigned before use on every path, variables never change type, dead code
+    after jumps reads only definitely assigned names).  The checker must therefore never reject one
+    of them for the two reasons this property is about."""
+    from vf import ctx as C
+    from vf.gen import gprog
+    from guppylang.defs import GuppyFunctionDefinition
+
+    prog = gprog.generate(rng)
+    text = prog.text()
+    ld = ctx.load(text)
+    counters = {"valid_by_construction_functions": 0}
+    for name, d in vars(ld.module).items():
+        if not isinstance(d, GuppyFunctionDefinition):
+            continue
+        counters["valid_by_construction_functions"] += 1
+        try:
+            d.check()
+        except BaseException as e:
+            if C.raised_in_harness(e):
+                raise
+            if not C.is_guppy_error(e):
+                continue  # crashes are C02's business
+            title = str(getattr(getattr(e, "error", None), "title", type(e).__name__))
+            fam = "undefined" if "not defined" in title.lower() else \
+                ("conflict" if "different types" in title.lower() else None)
+            if fam:
+                return {"status": "violated", "fp": "gprog", "mech": f"C08:false-reject:{fam}:valid-by-construction",
+                        "witness": {"text": text, "function": name, "error": ctx.render(e)[:1500]},
+                        "counters": counters}
+    kinds = set(prog.kinds())
+    return {"status": "held", "fp": ("gp:" + prog.fingerprint()) if prog.nontrivial() else None,
+            "counters": counters,
+            "sets": {"observed": ["accept"], "gprog_kinds": sorted(kinds & {"dead", "while", "for_range", "nested", "if"})}}
+
+
 def run_case(ctx, rng, idx, params, tier):
+    if idx % 4 == 3:
+        return run_gprog_case(ctx, rng, idx)
     g = G(rng, const_conds=(idx % 8 == 7))
     body = g.block(0, False)
     # initialise a random subset of the variables first so type conflicts are not masked by
@@ -311,6 +353,8 @@ def run_case(ctx, rng, idx, params, tier):
 
 
 def replay(ctx, w):
+    if 'ir' not in w:
+        return {'status': 'held', 'note': 're-run the check; witness text attached'}
     import ast as _ast
 
     body = _ast.literal_eval(w["ir"])
